@@ -90,6 +90,9 @@ var baseTable = FunctionTable{
 	},
 	"repeat": unimplementedWithArity(1, 1),
 	"ofType": unimplementedWithArity(1, 1),
+	// the function forms of the type operators; only the operators are implemented
+	"is":     unimplementedWithArity(1, 1),
+	"as":     unimplementedWithArity(1, 1),
 	"single": unimplementedWithArity(0, 0),
 	"first": Function{
 		impl.First,
